@@ -115,6 +115,10 @@ def run(prop, tier, seed, replay=None):
             [["put", "a", "sumMix"], ["put", "b", "esc"], ["put", "c", "jan"]] + [["query", "noSum"]] * 3 +
             [["query", "sumEsc"]] * 3 + [["query", "locEsc"]] * 3 + [["put", "d", "sumMix"], ["delete", "a"]] +
             [["query", "noSum"], ["query", "sumEsc"], ["query", "fA"]],
+            # a parameter text-match answered from the index, then is-not-defined on the same key
+            [["put", "a", "att"], ["put", "b", "attN"], ["put", "c", "jan"], ["put", "d", "att2"]] +
+            [["query", "partstat"]] * 4 + [["query", "noPartstat"]] * 3 + [["query", "declined"]] * 2 +
+            [["query", "noPartstat"], ["query", "partstat"], ["query", "hasAtt"]],
             # a read that transforms what it returns (expansion of recurrences) between queries
             # that look at what the expansion removes
             [["put", "a", "weekly"], ["put", "b", "jan"], ["query", "hasRrule"], ["query", "noRrule"], ["expand"]] +
